@@ -1187,7 +1187,10 @@ class Client():
                 if self.connector.tymeout > 0.0 and self.connector.tymer.expired:  # timed out
                     self.connector.reopen()
                     if self.respondent.evented:
-                        duration = float(self.respondent.retry) / 1000.0 # convert to seconds
+                        try:
+                            duration = float(self.respondent.retry) / 1000.0 # convert to seconds
+                        except OverflowError:  # absurd retry in event stream
+                            duration = None  # reused current duration
                     else:
                         duration = None  # reused current duration
                     self.connector.tymer.restart(duration=duration)
